@@ -1,7 +1,9 @@
 // Correspondence harness for C16: drives the real cache/lru.Cache with
 // generated histories (sequential calls, and groups of concurrent callers
 // under a controlled scheduler built on the verif yield hook) and writes the
-// observations as Coq cases files for Verif.C16.Replay.
+// observations as Coq cases files for Verif.C16.Replay. free.go adds the
+// free-running part (no hook, no scheduler control): distinct outcomes of
+// small concurrent scenarios for Replay.run_free, and stress rounds.
 package main
 
 import (
@@ -1190,7 +1192,7 @@ func main() {
 			// timing dependent: the same scenario, repetitions and delay
 			// sequence, but the interleavings are the scheduler's
 			lru.VerifYieldHook = nil
-			runFree(&h, nil)
+			runFree(&h)
 			fhs = []History{h}
 		case h.Stress != nil:
 			lru.VerifYieldHook = nil
@@ -1245,16 +1247,20 @@ func main() {
 		lru.VerifYieldHook = nil
 		thorough := a.Tier == "thorough"
 		fhs = freeScenarios(a.Seed, thorough)
-		par := runtime.GOMAXPROCS(0) / 4
+		par := runtime.GOMAXPROCS(0) / 3
 		if par < 1 {
 			par = 1
 		}
 		t0 := time.Now()
-		runFreeAll(fhs, par)
-		rep.Histogram["free_wall_ms"] = int(time.Since(t0).Milliseconds())
-		nstress := 48
+		budget := 12 * time.Second
 		if thorough {
-			nstress = 400
+			budget = 8 * time.Minute
+		}
+		rep.Histogram["free_scenarios_cut_short"] = runFreeAll(fhs, par, budget)
+		rep.Histogram["free_wall_ms"] = int(time.Since(t0).Milliseconds())
+		nstress := 320
+		if thorough {
+			nstress = 4000
 		}
 		for i := 0; i < nstress; i++ {
 			shs = append(shs, stressHistory(a.Seed, i, thorough))
@@ -1305,6 +1311,9 @@ func main() {
 	})
 	if len(fhs) > 0 {
 		fshard := (len(fhs) + 5) / 6
+		if fshard > 400 {
+			fshard = 400
+		}
 		if fshard < 50 {
 			fshard = 50
 		}
@@ -1365,9 +1374,13 @@ func main() {
 		rep.Histogram["stress_rounds"]++
 		rep.Histogram["stress_ops"] += h.Stress.Ops
 		if h.Failure != nil {
-			rep.ImplFailures = append(rep.ImplFailures, c.ImplFailure{Case: fmt.Sprint(h.ID),
-				Step: h.Failure.Step, What: h.Failure.What, Tag: h.Failure.Tag})
+			// every failing round is counted, the first few are reported
+			if rep.Histogram["impl_failure:"+h.Failure.Tag] < 5 {
+				rep.ImplFailures = append(rep.ImplFailures, c.ImplFailure{Case: fmt.Sprint(h.ID),
+					Step: h.Failure.Step, What: h.Failure.What, Tag: h.Failure.Tag})
+			}
 			rep.Histogram["impl_failure:"+h.Failure.Tag]++
+			rep.Histogram["stress_rounds_failed"]++
 		}
 	}
 
